@@ -19,8 +19,8 @@ MASTER_NOTE = ("Trusted: TLC 1.8, harness/zkfake.py (kazoo-shaped in-memory ZooK
                "Master.tla abstracts the scheduler to 'any legal placement' and is exhaustive for 2 servers / 2 instances; "
                "the real Master/loader/ZkBackend run un-abstracted in the replay.")
 CHECKS.update({
- 'C09': ('model_checking', "Master.tla (every storage write one step; reschedule, init_schedule, remove_app, restore_placements, integrity check) model-checked; ZooKeeper-level histories through the real masterapi producers replayed on the real Master over an in-memory ZooKeeper; full /placement dump compared with Master.cell by MasterTrace.tla after every cycle and start-up (existence, no extras, identity, expiry).", '6/C09', MASTER_NOTE),
- 'C10': ('model_checking', "Master.tla with Crash enabled between any two storage writes of reschedule, load_model and init_schedule: no instance under two servers in ANY state, restart never trips the integrity check, placement = model after restart. On the code: an exception injected at the k-th storage write (sampled k in quick, every k in thorough), stored state examined at the cut, new Master started on it.", '6/C10', MASTER_NOTE, 'TLA+ spec model-checked with TLC (crash between any two writes) + fault enumeration of every storage write on the real Master + TLC trace validation'),
+ 'C09': ('model_checking', "Master.tla (every storage write one step; reschedule, init_schedule, remove_app, restore_placements, integrity check) model-checked; ZooKeeper-level histories through the real masterapi producers replayed on the real Master over an in-memory ZooKeeper; full /placement dump compared with Master.cell by MasterTrace.tla after every cycle and start-up (existence, no extras, identity, expiry). MasterLag.tla adds watch latency (deliveries as separate steps, cycles on a stale view, servers deleted/re-created under /placement): once everything is delivered and a publication completed store = model (InvSettled); its behaviours are replayed and every recorded step re-computed by MasterLagTrace.tla.", '6/C09', MASTER_NOTE),
+ 'C10': ('model_checking', "Master.tla with Crash enabled between any two storage writes of reschedule, load_model and init_schedule: no instance under two servers in ANY state, restart never trips the integrity check, placement = model after restart. On the code: an exception injected at the k-th storage write (sampled k in quick, every k in thorough), stored state examined at the cut, new Master started on it. MasterLag.tla (watch latency: the master publishes on a view that lags the store while administrators delete/re-create servers) is model-checked for the same invariants in every state and bound by stale-cycle histories with cuts on the real Master.", '6/C10', MASTER_NOTE, 'TLA+ spec model-checked with TLC (crash between any two writes) + fault enumeration of every storage write on the real Master + TLC trace validation'),
  'C11': ('model_checking', "Master.tla LoadModel action property; on the code the model right after load_model() is compared with the store as it was before the restart: every instance recorded under a healthy server is placed there with recorded identity and expiry, nothing unrecorded is placed.", '6/C11', MASTER_NOTE),
 })
 CHECKS.update({
